@@ -1,6 +1,8 @@
 package sim
 
 import (
+	"crypto/sha256"
+	"fmt"
 	"math/rand"
 
 	"verif/harness/ref"
@@ -12,6 +14,7 @@ var AttOps = []string{
 	"honest", "permute", "dup-sig", "high-s-twin", "high-s-twin-appended", "flip-v", "mixed-v", "truncate", "pad",
 	"sign-other-bytes", "sign-digest-of-digest", "sign-prefix", "swap-non-enabled-key", "extra-sig", "missing-sig",
 	"zero-r", "zero-s", "r-ge-n", "random-bytes", "swap-two-adjacent", "twin-replaces-neighbour",
+	"sign-eth-wrapped-digest", "sign-eth-wrapped-message", "sign-sha256",
 }
 
 var vValues = []byte{0, 1, 2, 3, 27, 28, 29, 30, 255}
@@ -115,6 +118,25 @@ func MutateBytes(r *rand.Rand, op string, idx int, msg []byte, att []byte, signe
 		ks := append([]*ref.Key(nil), signers...)
 		ks[idx] = outsider
 		return ref.HonestAttestation(msg, ks, r.Intn(3))
+	case "sign-eth-wrapped-digest", "sign-eth-wrapped-message", "sign-sha256":
+		// the right key over another digest of the same message (personal_sign / eth_sign wrapping, sha-256), in the
+		// 27/28 or the 0/1 recovery-id convention
+		var digest []byte
+		switch op {
+		case "sign-eth-wrapped-digest":
+			d := ref.Keccak256(msg)
+			digest = ref.Keccak256(append([]byte("\x19Ethereum Signed Message:\n32"), d...))
+		case "sign-eth-wrapped-message":
+			digest = ref.Keccak256(append([]byte(fmt.Sprintf("\x19Ethereum Signed Message:\n%d", len(msg))), msg...))
+		default:
+			h := sha256.Sum256(msg)
+			digest = h[:]
+		}
+		sg := signers[idx].SignDigest(digest)
+		if r.Intn(2) == 0 && sg[64] < 27 {
+			sg[64] += 27
+		}
+		copy(sig(idx), sg)
 	case "extra-sig":
 		if outsider != nil && r.Intn(2) == 0 {
 			att = append(att, outsider.Sign(msg)...)
